@@ -130,13 +130,19 @@ impl Drop for SubSocket {
 
 impl SubSocket {
     pub async fn subscribe(&mut self, subscription: &str) -> ZmqResult<()> {
-        self.backend.subs.lock().insert(subscription.to_string());
+        // The subscription set is a set: only a change of the set is announced, so
+        // that every peer (early or late) sees exactly the current set.
+        if !self.backend.subs.lock().insert(subscription.to_string()) {
+            return Ok(());
+        }
         self.process_subs(subscription, SubBackendMsgType::SUBSCRIBE)
             .await
     }
 
     pub async fn unsubscribe(&mut self, subscription: &str) -> ZmqResult<()> {
-        self.backend.subs.lock().remove(subscription);
+        if !self.backend.subs.lock().remove(subscription) {
+            return Ok(());
+        }
         self.process_subs(subscription, SubBackendMsgType::UNSUBSCRIBE)
             .await
     }
